@@ -46,8 +46,29 @@ class MMap:
 
 
 
+class MSet:
+    """a HashSet that is mutated in place (members compared by identity or equality)"""
+
+    def __init__(self, items=()):
+        self.items = []
+        for x in items:
+            self.add(x)
+
+    def add(self, x):
+        if not any(x is y or x == y for y in self.items):
+            self.items.append(x)
+            return True
+        return False
+
+    def __repr__(self):
+        return "MSet(%d)" % len(self.items)
+
+
 def MSet_types():
-    return ()
+    return (MSet,)
+
+
+SET_TYPES = ("HashSet", "BTreeSet", "VariableUses", "IndexSet")
 
 
 class Sink:
@@ -85,6 +106,11 @@ class PassWorld(World):
                 if nm not in own and (ty, nm) not in self.methods:
                     self.methods[(ty, nm)] = (fn_, f_)
         self.stubs = {}
+        self.struct_fields = {}
+        for f in files:
+            for _p, it in all_items(facts.ast().get(f) or []):
+                if it["k"] == "StructDef":
+                    self.struct_fields[it["name"]] = [(x["name"], x["ty"].replace(" ", "")) for x in it["fields"]]
         # struct-like variants: name -> enum (for patterns written with glob imports)
         self.variant_owner = {}
         for f in files:
@@ -148,11 +174,32 @@ class PassWorld(World):
             return self.lit(p["lit"]) == v
         if k == "PTupleStruct" and isinstance(v, tuple) and v and v[0] == "V":
             return False
+        if k == "PTupleStruct" and isinstance(v, tuple) and v and v[0] == "E" and last(p["path"]) != "Some":
+            return False  # a unit variant never matches a tuple-variant pattern
         if k == "PIdent" and p.get("sub") is None and p["name"][:1].isupper() and isinstance(v, tuple) and v and v[0] == "V":
             return False
         if k == "PPath" and isinstance(v, tuple) and v and v[0] == "V":
             return False
         return super().bind(p, v, env, uses)
+
+    def default_of(self, ty):
+        """the Default value of a type text (sets, maps, vectors, options, booleans, structs of those)"""
+        base = ty.split("<")[0]
+        if base in SET_TYPES:
+            return MSet()
+        if base in MAP_TYPES:
+            return MMap()
+        if base in VEC_TYPES:
+            return Sink()
+        if base == "Option":
+            return NONE
+        if ty == "bool":
+            return False
+        if ty in ("usize", "u32", "u64", "i32", "i64"):
+            return 0
+        if ty in self.struct_fields:
+            return S(ty, *[self.default_of(t) for _n, t in self.struct_fields[ty]])
+        raise Unsupported("default of " + ty)
 
     # opaque functions: path prefix -> callable(name, args) -> value   (set by the rule)
     opaque = ()
@@ -250,6 +297,12 @@ class PassWorld(World):
         if k == "Call" and e["func"]["k"] == "Path":
             p = e["func"]["path"]
             segs_ = p.split("::")
+            if len(segs_) >= 2 and segs_[-2] in SET_TYPES and segs_[-1] in ("new", "with_capacity", "default") and p not in env:
+                for a in e["args"]:
+                    self.eval(a, env, uses)
+                return MSet()
+            if len(segs_) >= 2 and segs_[-1] in ("default", "new") and not e["args"] and p not in env and segs_[-2] in self.struct_fields and (segs_[-2], segs_[-1]) not in self.methods:
+                return self.default_of(segs_[-2])
             if len(segs_) >= 2 and segs_[-2] in MAP_TYPES and segs_[-1] in ("new", "with_capacity", "default") and p not in env:
                 for a in e["args"]:
                     self.eval(a, env, uses)
@@ -283,6 +336,33 @@ class PassWorld(World):
         if k == "MethodCall":
             m = e["method"]
             recv = self.eval(e["recv"], env, uses)
+            if isinstance(recv, MSet):
+                args = [self.eval(a, env, uses) for a in e["args"]]
+                if m == "insert" and len(args) == 1:
+                    return recv.add(args[0])
+                if m == "extend" and len(args) == 1:
+                    a = args[0]
+                    items = a.items if isinstance(a, (MSet, Sink)) else (a.rest() if isinstance(a, Iter) else (list(a[1]) if isinstance(a, tuple) and a and a[0] == "L" else None))
+                    if items is None:
+                        raise Unsupported("extend with %r" % (a,))
+                    for x in list(items):
+                        recv.add(x)
+                    return ("T", ())
+                if m in ("clone", "to_owned") and not args:
+                    return MSet(recv.items)
+                if m in ("iter", "into_iter", "drain") and not args:
+                    return Iter(list(recv.items))
+                if m == "len" and not args:
+                    return len(recv.items)
+                if m == "is_empty" and not args:
+                    return not recv.items
+                if m == "contains" and len(args) == 1:
+                    return any(args[0] is y or args[0] == y for y in recv.items)
+                if m == "union" and len(args) == 1 and isinstance(args[0], MSet):
+                    return Iter(list(MSet(recv.items + args[0].items).items))
+                raise Unsupported("set method " + m)
+            if isinstance(recv, Iter) and m == "collect" and not e["args"] and any(t_ in str(e.get("turbofish") or "") for t_ in SET_TYPES):
+                return MSet(recv.rest())
             if isinstance(recv, MMap):
                 args = [self.eval(a, env, uses) for a in e["args"]]
                 if m == "insert" and len(args) == 2:
